@@ -109,7 +109,7 @@ CHECKS = {
     text='Theorems (Coq): first/second/last/rest/length/zip/list/+ on lists/slice/range compute head, tail, length, combine, concatenation, firstn/skipn after clamping, '
          'the integer interval; arrays are a finite map with textual keys in insertion order after any seta/dela sequence; geta present-or-error; map and fold (MapFold.v, any sub-evaluator): '
          'if applying the operator/function to an element yields g el with state effect h el, (map f l) is List.map g of the elements in order with the effects composed left to right, '
-         '(fold f a l) is fold_left g; with the real evaluator (fold + a l)/(fold * a l) over integers are the sum/product; in is membership, max/min return an element that bounds all others, + of two lists is append (ListOps.v). PARTIAL: the std.wal functions defined by recursion (filter/'
+         '(fold f a l) is fold_left g; with the real evaluator (fold + a l)/(fold * a l) over integers are the sum/product; in is membership, max/min return an element that bounds all others, + of two lists is append (ListOps.v); (range a b s) for every non-zero step is exactly the arithmetic progression a+k*s on the side of b selected by the sign of s, in order, nothing missing and nothing else, step 0 is an error (RangeProofs.v). PARTIAL: the std.wal functions defined by recursion (filter/'
          'reverse/sort/partition) and immutability of reachable lists are decided by the differential check against Python sequence operations.' + DIFF,
     technique='Coq proof (list operator equations, map/fold as List.map/fold_left, finite-map laws) + differential correspondence + Python sequence oracle'),
  'C15': dict(
